@@ -517,7 +517,8 @@ func TestC40(t *testing.T) {
 		t.Fatal(err)
 	}
 
-	total := vh.N(20000, 1000000)
+	// quick: one round of 12 children x 500 requests (about 65 requests per route); the deep exploration is the thorough tier
+	total := vh.N(6000, 1000000)
 	per := 500
 
 	if vh.Tier() == "thorough" {
